@@ -1,0 +1,38 @@
+//go:build verif
+// +build verif
+
+package executor
+
+import (
+	"context"
+	"fmt"
+
+	"github.com/taskctl/taskctl/internal/veriftrace"
+)
+
+func init() {
+	if !veriftrace.Enabled() {
+		return
+	}
+	VerifGateHook = func(ctx context.Context, ev string, job *Job, err error) {
+		e := map[string]interface{}{"e": ev, "cmd": job.Command}
+		if job.Env != nil {
+			if n, ok := job.Env.Map()["TASK_NAME"]; ok {
+				e["t"] = fmt.Sprint(n)
+			}
+		}
+		if ev == "CmdEnd" {
+			kind := "nil"
+			if err != nil {
+				kind = "other"
+				if _, ok := IsExitStatus(err); ok {
+					kind = "exit"
+				} else if ctx.Err() != nil {
+					kind = "ctx"
+				}
+			}
+			e["err"] = kind
+		}
+		veriftrace.Emit(e)
+	}
+}
